@@ -14,9 +14,9 @@ def run(tier, seed):
     ctx.invariants = ["CellContents", "MissedAccounting", "ShapesMatch"]
     cfg = "MC_HistND_c02q" if tier == "quick" else "MC_HistND_c02t"
     _res, g = ctx.model_check(cfg, required_actions=REQ)
-    combos = [("dyadic", "int", 0), ("ulp", "half", 1), ("decimal", "npint", 2), ("huge", "int", 1), ("neg", "float1", 0)]
+    combos = [("dyadic", "int", 0), ("ulp", "half", 1), ("decimal", "npint", 2), ("huge", "int", 1), ("neg", "float1", 0), ("tiny", "half", 2)]
     if tier == "thorough":
-        combos += [("tiny", "half", 2), ("offset", "quarter32", 0), ("ulp", "int", 2)]
+        combos += [("offset", "quarter32", 0), ("ulp", "int", 2), ("tiny", "int", 0)]
     sub = only_actions(g, {"NewEmpty", "Construct"})
     for pe, we, sp in combos:
         ctx.replay(sub, NDAdapter(POS[pe], WTS[we], spelling=sp), VIEW, label=f"{pe}/{we}/sp{sp}")
